@@ -11,6 +11,7 @@ from . import tr
 from . import containers as ct
 from . import mergerules as mr
 
+from . import unitrules
 from .common import Guard  # noqa: E402
 
 PROP = 'C19'
@@ -21,7 +22,7 @@ DECIDED = [
     'R4: node classes declare no __slots__; ConfigScalar.__reduce__ passes a copy of __dict__ as state.',
     'R5: copy-protocol inventory: any __deepcopy__/__copy__ in the package passes its memo to every nested deepcopy and never transfers self.__dict__ (or a mutable field) by reference; no other class overrides __reduce__/__getstate__/__setstate__ unchecked.',
 ]
-UNDECIDED = ['equality of flags / behaviour of the copy as data;', 'ConfigTuple (unfinished in the repo; INFO).']
+UNDECIDED = ['equality of flags / behaviour of the copy as data beyond the evaluated tables (R6).']
 COPY_HOOKS = ('__reduce__', '__reduce_ex__', '__getstate__', '__setstate__', '__deepcopy__', '__copy__', '__getnewargs__', '__getnewargs_ex__')
 CHECKED_HOOKS = {('ComposedNode', '__getstate__'), ('ComposedNode', '__setstate__'), ('ComposedNode', '__reduce__'), ('ConfigScalar', '__reduce__'), ('ConfigList', '__setstate__')}
 
@@ -293,23 +294,55 @@ def r5(repo, run):
             run.violation('C19.R5', fi, '%s.%s' % key, 'copy/pickle hook outside the reconstruction scheme that R1-R4 check (ComposedNode / ConfigScalar)')
     if n < 4:
         raise AnalysisError('copy-protocol inventory found only %d hooks' % n)
-    ct_ = repo.classes.get('ConfigTuple')
-    if ct_ is not None:
-        run.info('C19.R5', (ct_.module.relpath, ct_.node.lineno, 'ConfigTuple'), 'ConfigTuple', 'unfinished node kind (repo TODO); not covered')
+
+
+
+def r2b(repo, run):
+    # every node class that inherits ComposedNode.__reduce__ is rebuilt by _recreate with cls.__new__(cls) - no further argument - and
+    # refilled through append / item assignment: its __new__ must accept that call and its built-in base must be refillable
+    rec = repo.func('ComposedNode._recreate')
+    bare = any(isinstance(c, ast.Call) and isinstance(c.func, ast.Attribute) and c.func.attr == '__new__' and len(c.args) == 1 and not c.keywords for c in ast.walk(rec.node))
+    for cname, ci in sorted(repo.classes.items()):
+        if cname == 'ComposedNode' or not repo.is_subclass(cname, 'ComposedNode') or repo.resolve(cname, '__reduce__') is not repo.func('ComposedNode.__reduce__'):
+            continue
+        nw = repo.resolve(cname, '__new__')
+        mro = repo.mro(cname)
+        problems = []
+        if bare and nw is not None:
+            a = nw.node.args
+            required = [x.arg for x in (a.posonlyargs + a.args)[1:len(a.posonlyargs + a.args) - len(a.defaults)]]
+            if required:
+                problems.append('%s.__new__ requires %s, but ComposedNode._recreate calls cls.__new__(cls) without arguments (TypeError)' % (nw.cls.name if nw.cls else cname, ', '.join(required)))
+        if 'tuple' in mro and 'list' not in mro and 'dict' not in mro:
+            problems.append('its built-in base is the immutable tuple: the elements cannot be re-attached after the object was rebuilt')
+        if problems:
+            run.violation('C19.R2', (ci.module.relpath, ci.node.lineno, cname), '%s: copy / pickle through ComposedNode.__reduce__' % cname, '%s cannot be deep-copied or pickled: %s' % (cname, '; '.join(problems)))
+        else:
+            run.ok('C19.R2', (ci.module.relpath, ci.node.lineno, cname), '%s is rebuilt by cls.__new__(cls) and refilled through its mutators' % cname)
 
 
 def check(repo, run, tier):
     g = Guard()
     g(r1, repo, run)
     g(r2, repo, run)
+    g(r2b, repo, run)
     g(r3, repo, run)
     g(r4, repo, run)
     g(r5, repo, run)
+    g(unitrules.deepcopy_keeps_inherited_flags, repo, run, 'C19.R6')
     g.done()
+
+
+def _state_first(r):
+    ov = in_func(r, 'ComposedNode.__deepcopy__', "        new.__setstate__(copy.deepcopy(self.__getstate__(), memo))\n        return new", "        return new")
+    r2 = r.with_overrides(ov)
+    return in_func(r2, 'ComposedNode.__deepcopy__', "        memo[id(self)] = new\n", "        memo[id(self)] = new\n        new.__setstate__(copy.deepcopy(self.__getstate__(), memo))\n")
 
 
 def mutants(repo):
     return [
+        Mutant('F22-reverted-deepcopy-through-reduce', lambda r: in_func(r, 'ComposedNode.__deepcopy__', "    def __deepcopy__(self, memo):", "    def _unused_deepcopy(self, memo):"), ['C19.R6']),
+        Mutant('deepcopy-restores-the-state-first', lambda r: _state_first(r), ['C19.R6']),
         Mutant('getstate-no-copy', lambda r: in_func(r, 'ComposedNode.__getstate__', "state = self.__dict__.copy()", "state = self.__dict__"), ['C19.R1']),
         Mutant('getstate-keeps-children', lambda r: in_func(r, 'ComposedNode.__getstate__', "        del state['_children']\n", ""), ['C19.R1']),
         Mutant('reduce-dict-items-in-list-slot', lambda r: in_func(r, 'ComposedNode.__reduce__', "return ComposedNode._recreate, (type(self), ), state, lit, dit", "return ComposedNode._recreate, (type(self), ), state, dit, lit"), ['C19.R2']),
